@@ -37,4 +37,8 @@ CLAIMED['C03'] = ('DESIGN.md 4/C03', 'Spectra shown to be absmax of the (C01) re
     'max|x| decided for every x (free arrays up to 2x12), pseudo relations with the true 2*pi, the 6*dt PGA cut incl. '
     'the boundary, container kinds, the AccSignal target-step/interpolation rule for min_dt_ratio in {1,2,4,8}, and the '
     'energy spectra as their defining sums; symbolic records n<=5, stated period/damping grid.')
+CLAIMED['C13'] = ('DESIGN.md 4/C13', 'Symbolic execution of the peak-only series functions (in-place rebasing, plateau cleaning, sign '
+    'normalisation; every rise/fall/flat pattern a path, n<=6) with the conservation laws and shift invariance decided '
+    'by z3, and of the power-law cycle/amplitude functions with symbolic a_ref, n_cyc for b in {1, 1/2} (x**(1/b) '
+    'polynomial, y**b an exact algebraic root; rational-function arithmetic), n<=4.')
 NOT_APPLICABLE = {}
